@@ -449,8 +449,8 @@ func isNilValue(values ...interface{}) bool {
 		if v == nil {
 			return true
 		}
-		if rv := reflect.ValueOf(v); rv.Kind() == reflect.Ptr && rv.IsNil() {
-			return true
+		if rv := reflect.ValueOf(v); (rv.Kind() == reflect.Ptr || rv.Kind() == reflect.Slice || rv.Kind() == reflect.Map) && rv.IsNil() {
+			return true // encoded as JSON null on the wire
 		}
 	}
 	return false
